@@ -180,6 +180,59 @@ def h_project_spline(env, nalpha=2, orb_stride=3, spline_stride=3, offset_spline
                 env.equal("forward_writes_only_window_%s_%d" % ("_".join(map(str, idx)), c), Ax[idx + (c,)], env.const(0))
 
 
+def _real_interp():
+    """a real LCAOInterpolator (spline maps and the l-1 'derivative' basis built by the freshly compiled library)"""
+    W = _real_world()
+    if "interp" not in W:
+        import ciderpress.dft.lcao_interpolation as li
+        W["li"] = li
+        W["interp"] = li.LCAOInterpolator(np.array([[0.0, 0.0, 0.0], [0.0, 0.0, 1.4]]), W["atco"], 1, 1, nrad=8)
+    return W["interp"]
+
+
+def h_fill_l1(env, stride1=2, offset1=1, stride2=4, offset2=1):
+    """fill_l1_coeff_fwd (A: orbital coefficients f_u -> the x/y/z components d_uv of the l-1 basis through the Gaunt table) and
+    fill_l1_coeff_bwd (B); both ATCBasis structs and the Gaunt coefficients are the real ones"""
+    import ctypes as ct
+    W = _real_world()
+    ip = _real_interp()
+    atco0, atco1 = ip.atco, ip.l1atco
+    gaunt = np.ascontiguousarray(ip._gaunt_coeff)
+    nlm = int(ip.nlm)
+    x = env.arr("x", (atco0.nao, stride1), lo="-2", hi="2")
+    y = env.arr("y", (atco1.nao, stride2), lo="-2", hi="2")
+    if env.sym:
+        Ax = env.zeros((atco1.nao, stride2))
+        it = _hybrid(INTERP_C)
+        it.call("fill_l1_coeff_fwd", [_sym_buf(it, x.copy(), "f_u"), _sym_buf(it, Ax, "d_uv"), Ptr(REAL, gaunt.ctypes.data), nlm, _ptr_of(atco0.atco_c_ptr), _ptr_of(atco1.atco_c_ptr),
+                                      stride1, offset1, stride2, offset2])
+        By = env.zeros((atco0.nao, stride1))
+        it2 = _hybrid(INTERP_C)
+        it2.call("fill_l1_coeff_bwd", [_sym_buf(it2, By, "f_u"), _sym_buf(it2, y.copy(), "d_uv"), Ptr(REAL, gaunt.ctypes.data), nlm, _ptr_of(atco0.atco_c_ptr), _ptr_of(atco1.atco_c_ptr),
+                                       stride1, offset1, stride2, offset2])
+        STATS["instructions"] += it.steps + it2.steps
+    else:
+        lib = W["lc"].libcider
+        P = lambda a: a.ctypes.data_as(ct.c_void_p)
+        I = ct.c_int
+        Ax = np.zeros((atco1.nao, stride2))
+        xx = np.ascontiguousarray(x.copy())
+        lib.fill_l1_coeff_fwd(P(xx), P(Ax), P(gaunt), I(nlm), atco0.atco_c_ptr, atco1.atco_c_ptr, I(stride1), I(offset1), I(stride2), I(offset2))
+        By = np.zeros((atco0.nao, stride1))
+        yy = np.ascontiguousarray(y.copy())
+        lib.fill_l1_coeff_bwd(P(By), P(yy), P(gaunt), I(nlm), atco0.atco_c_ptr, atco1.atco_c_ptr, I(stride1), I(offset1), I(stride2), I(offset2))
+    w2 = slice(offset2, offset2 + 3)
+    env.equal("<Ax,y>=<x,By>", _dot(env, Ax[:, w2], y[:, w2]), _dot(env, x[:, offset1], By[:, offset1]))
+    for u in range(atco1.nao):
+        for c in range(stride2):
+            if not (offset2 <= c < offset2 + 3):
+                env.equal("forward_writes_only_xyz_columns_%d_%d" % (u, c), Ax[u, c], env.const(0))
+    for u in range(atco0.nao):
+        for c in range(stride1):
+            if c != offset1:
+                env.equal("backward_writes_only_its_column_%d_%d" % (u, c), By[u, c], env.const(0))
+
+
 def h_atc_integrals(env, vk=False):
     """multiply_atc_integrals(fwd=1) / (fwd=0): Gaussian convolution forward/backward on a real convolution_collection"""
     W = _real_world()
@@ -289,6 +342,7 @@ def tasks(tier):
            # offset 0 inside a wider array (stride > nalpha): the layout LCAOInterpolator uses for the l=0 block when l=1 features exist
            Task("angc_ylm/offset0_wide", h_angc_ylm, dict(stride=3, offset=0)), Task("rad_orb/offset0_wide", h_rad_orb, dict(stride=4, offset=0)),
            Task("project_spline/offsets0_1", h_project_spline, {}), Task("project_spline/offsets1_0_wide", h_project_spline, dict(orb_stride=4, spline_stride=3, offset_spline=1, offset_orb=0)),
+           Task("fill_l1_coeff/offsets1_1", h_fill_l1, {}), Task("fill_l1_coeff/offsets0_0", h_fill_l1, dict(stride1=1, offset1=0, stride2=3, offset2=0)),
            Task("atc_integrals/vj+vi", h_atc_integrals, dict(vk=False)), Task("atc_integrals/vk", h_atc_integrals, dict(vk=True)),
            Task("interp_transform/gq", h_interp_transform, dict(order="gq"), mods="numint"), Task("interp_transform/qg", h_interp_transform, dict(order="qg"), mods="numint"),
            Task("translator_validation", c_translator_validation, dict(seed=0), engine="custom")]
@@ -301,6 +355,7 @@ def prepare(tier):
     m = sym_mods()
     m.plans
     _real_world()
+    _real_interp()
 
 
 def replay(task, rec):
@@ -316,7 +371,7 @@ def replay(task, rec):
 def extra_evidence(results):
     from ..llsym import ir
     return dict(ir_sources_sha256={k.replace("/repo/", ""): v for k, v in ir.EMITTED.items()}, translator_validation=[dict(function=n, max_deviation=d) for n, d in VALIDATION],
-                pairs_not_covered=["fill_l1_coeff_fwd/bwd", "add_lp1_term_fwd/bwd (+onsite variants)",
+                pairs_not_covered=["add_lp1_term_fwd/bwd (+onsite variants)",
                                    "compute_mol_convs_single_new/compute_pot_convs_single_new", "SDMXcontract_ao_to_bas*", "contract_shl_to_alpha_l1(_bwd)", "SDMX plan get_features/get_vxc"])
 
 
@@ -325,7 +380,7 @@ META = dict(
                 "z3 decides the bilinear adjoint identity; interpreter validated against the compiled .so on concrete inputs",
     functions=["ciderpress/lib/mod_cider/cider_grids.c: reduce_angc_to_ylm, reduce_ylm_to_angc (dgemm_ by reference-BLAS semantics)",
                "ciderpress/lib/mod_cider/convolutions.c: contract_rad_to_orb, contract_orb_to_rad, multiply_atc_integrals(fwd=1/0), multiply_atc_integrals_vk(fwd=1/0)",
-               "ciderpress/lib/mod_cider/conv_interpolation.c: project_conv_to_spline, project_spline_to_conv",
+               "ciderpress/lib/mod_cider/conv_interpolation.c: project_conv_to_spline, project_spline_to_conv, fill_l1_coeff_fwd, fill_l1_coeff_bwd (real Gaunt table from sph_harm_coeff.get_deriv_ylm_coeff)",
                "ciderpress/dft/plans.py: NLDFGaussianPlan._get_transformed_interpolation_terms (fwd/bwd, in place and copy)"],
     bounds=dict(atoms=2, lmax=1, nalpha=2, radial_shells="2-5", angular_points="2-4 per shell", strides="stride > nalpha with offset 0/1", coef_order="gq, qg", threads="serial semantics (C10 covers threading)"),
     stubs=["dgemm_: reference BLAS (column major) over exact reals", "scipy cho_factor/cho_solve: exact symbolic solve (SPD assumed, 2x2)",
